@@ -287,10 +287,11 @@ def directed(pid, tier="quick"):
         S += [multi_fork_discard()]
     if pid in ("C03", "C07"):
         S += [depth_bound_tips("regtest", 2), depth_bound_tips("testnet", 144, 90, 14)]
+    if pid == "C03":
+        # several hundred blocks each: the real adaptive depth bound, the three-way tie, two forks beyond the bound
+        S += [depth_bound_chain("testnet", 144, 0), tie_depth_escape("testnet"), two_long_forks_heavy_block("regtest")]
     if pid == "C03" and tier == "thorough":
-        # several hundred blocks each: the real adaptive depth bound and the three-way tie
-        S += [depth_bound_chain("testnet", 144, 0), depth_bound_chain("regtest", 6, 30), tie_depth_escape("testnet"),
-              two_long_forks_heavy_block("regtest"), two_long_forks_heavy_block("testnet", 2, 302, 301)]
+        S += [depth_bound_chain("regtest", 6, 30), two_long_forks_heavy_block("testnet", 2, 302, 301)]
     return S
 
 
